@@ -461,6 +461,20 @@ class Prepared:
         if ev:
             self.event = {"type": ev["type"], "in": ev["in"] % self.nin, "c": ev["c"], "s": ev["s"]}
 
+    def has_libm(self):
+        """true when the emitted body calls libm functions whose results are not correctly rounded: the
+        compiler may evaluate them itself (exact rounding) where their arguments are compile-time constants,
+        which depends on the interface (constexpr parameters in the c interface)"""
+        def walk(e):
+            if e[0] == "pow" or (e[0] == "call" and e[1] not in ("fabs", "sqrt")):
+                return True
+            return any(walk(x) for x in e[1:] if isinstance(x, (list, tuple)))
+        if self.prog["kind"] != "function":
+            return False
+        es = list(self.temps) + [self.res] + ([self.cond["else"]] if self.cond else []) + (
+            [self.post[1]] if self.post else []) + ([self.aug] if self.aug else [])
+        return any(walk(e) for e in es)
+
     # ---- text emission
     def cxx(self, e):
         t = e[0]
@@ -1023,6 +1037,16 @@ def generate(P, root):
     """writes the mfront file and runs mfront; returns (workdir, error or None)"""
     import verifpy as V
     wd = os.path.join(root, P.law)
+    os.makedirs(wd, exist_ok=True)
+    lk = _lock(os.path.join(wd, ".lock"))  # the same program can be asked for by two threads / processes
+    try:
+        return _generate(P, wd)
+    finally:
+        lk.close()
+
+
+def _generate(P, wd):
+    import verifpy as V
     ok = os.path.join(wd, ".generated")
     stamp = mfront_stamp()
     if os.path.exists(ok) and open(ok).read() == stamp:
@@ -1062,8 +1086,24 @@ def iface_source(P, wd, iface):
             "cxx": os.path.join(wd, "src", "verif_cxx_wrapper.cxx")}[iface]
 
 
+def _memoise_libdirs():
+    """verifpy.libdirs() walks the whole build tree at every call (Python level, under the GIL): with
+    ~100 compilations running in threads this serialises them.  Memoised here, for this process only."""
+    import verifpy as V
+    if not getattr(V.libdirs, "_memoised", False):
+        orig, memo = V.libdirs, {}
+
+        def libdirs():
+            if "d" not in memo:
+                memo["d"] = orig()
+            return memo["d"]
+        libdirs._memoised = True
+        V.libdirs = libdirs
+
+
 def compile_iface(P, wd, iface):
     import verifpy as V
+    _memoise_libdirs()
     return V.compile_generated(wd, P.fname + "_" + iface, sources=[iface_source(P, wd, iface)],
                                extra_flags=("-DVERIF_IFACE_" + iface, "-I" + os.path.join(wd, "src")) + tuple(pch_flags()),
                                libs=("TFELMathCubicSpline", "TFELMath", "TFELException"))
@@ -1130,12 +1170,15 @@ def prebuild(progs, root, jobs):
     """generate + compile a batch of programs in parallel (fills the compile cache)"""
     import verifpy as V
     pch_flags()
-    Ps = []
+    Ps, seen = [], set()
     for p in progs:
         try:
-            Ps.append(Prepared(p))
+            P = Prepared(p)
         except Reject:
-            pass
+            continue
+        if P.law not in seen:
+            seen.add(P.law)
+            Ps.append(P)
     gen = V.parallel_map(lambda P: (P,) + generate(P, root), Ps, jobs)
     tasks = [(P, wd, i) for P, wd, err in gen if not err for i in IFACES]
     V.parallel_map(lambda t: compile_iface(*t), tasks, jobs)
